@@ -82,6 +82,23 @@ CHECKS = {
              "recorded call is judged by the TLC trace specification (adjacent, unchanged, direction for the draw, "
              "bitwise equality at inference).",
         design="7 C08"),
+    "C09": dict(
+        spec="QSchema.tla + MC_QRoundTrip + Trace_QRoundTrip",
+        text="The constructor-option schemas of all 14 registered classes are TLA+ data; TLC enumerates the "
+             "configuration lattice (bases x single/pairs of option deviations, documented contracts respected) and "
+             "all route compositions (from_config, get_quantizer(dict), keras serialize/deserialize) as stuttering "
+             "steps; every behaviour is replayed on real objects and the TLC trace specification checks that each "
+             "route leaves the function unchanged (bitwise outputs and scale on probe tensors, inference and training "
+             "phase with fixed draws) and does not raise; registry names resolve to their classes.",
+        design="7 C09"),
+    "C10": dict(
+        spec="SafeEval.tla + MC_SafeEval + Trace_SafeEval; QSchema/MC_QRoundTrip/Trace_QRoundTrip for str(q)",
+        text="TLC proves parser result = Python call result (argument split, literal types, order error) for every "
+             "token sequence up to the bound; every sequence is rendered, parsed by qkeras.safe_eval into a recording "
+             "callable and evaluated by Python itself, and TLC judges got = python = spec; hostile strings must not "
+             "execute. Print/text direction: str(q) and three renderings of the equivalent Python call are stuttering "
+             "steps on the function for the whole configuration lattice (same probe-based trace validation as C09).",
+        design="7 C10"),
 }
 
 
